@@ -914,6 +914,15 @@ func (env *Env) call(x *ECall) (EV, error) {
 		return EV{}, fmt.Errorf("unsupported call form")
 	}
 	switch id.Name {
+	case "entry":
+		// entry(e) in a loop invariant: e in the state in which the loop was reached (remembered by loopEnter)
+		if len(x.Args) != 1 || env.loop == nil || env.frame == nil {
+			return EV{}, fmt.Errorf("entry(expr) is only available in a loop invariant")
+		}
+		if t, ok := env.st.Aux[entryKey(env.loop, x)]; ok {
+			return EV{V: t, T: ex.auxTypes[entryKey(env.loop, x)]}, nil
+		}
+		return EV{}, &bindErr{"entry(): value at loop entry not recorded"}
 	case "iter":
 		// iter(e) in an invariant of an inner loop: e at the start of the current iteration of the
 		// enclosing loop (for event loops: when the select was entered)
